@@ -7,6 +7,7 @@ package relay
 
 import (
 	"bufio"
+	"bytes"
 	"encoding/hex"
 	"fmt"
 	"net"
@@ -169,6 +170,9 @@ func c19Txid(p []byte) string {
 
 func c19Unwrap(p []byte) string {
 	inner, err := UnwrapRelayReply(p)
+	if err == nil && c19Al(inner, p) == 1 {
+		return "ALIAS"
+	}
 	if err != nil {
 		switch {
 		case strings.HasPrefix(err.Error(), "packet too short"):
@@ -184,6 +188,9 @@ func c19Unwrap(p []byte) string {
 
 func c19Get4(p []byte, code byte) string {
 	g := GetOptionIP(p, code)
+	if g != nil && c19Al(g, p) == 1 {
+		return "ALIAS"
+	}
 	v, ok := GetOptionUint32(p, code)
 	if g == nil {
 		if ok {
@@ -195,6 +202,31 @@ func c19Get4(p []byte, code byte) string {
 		return "INCONSISTENT"
 	}
 	return c19Show(g)
+}
+
+// value-vs-alias observables.  c19Al: does res share memory with src?  (every byte of src is flipped and restored;
+// res is compared with a private copy taken before)
+func c19Al(res, src []byte) int {
+	saved := append([]byte(nil), res...)
+	for i := range src {
+		src[i] ^= 0xFF
+	}
+	changed := !bytes.Equal(saved, res)
+	for i := range src {
+		src[i] ^= 0xFF
+	}
+	return c19B(changed)
+}
+
+// c19Rw runs a rewriter on a private copy of pkt and reports: result, al (result aliases the input buffer),
+// im (the input buffer was modified by the call)
+func c19Rw(pkt []byte, f func([]byte) []byte) ([]byte, string) {
+	in := append([]byte(nil), pkt...)
+	r := f(in)
+	im := c19B(!bytes.Equal(in, pkt))
+	out := append([]byte(nil), r...)
+	al := c19Al(r, in)
+	return out, fmt.Sprintf("al=%d im=%d", al, im)
 }
 
 func c19Pairs(toks []string) (codes []uint16, datas [][]byte) {
@@ -225,26 +257,28 @@ func c19Case(f []string) (out string) {
 		}
 		return "ok " + c19Show(b)
 	case "o82ins":
-		r := InsertOption82(c19Hex(f[3]), c19Hex(f[2]), f[1])
-		return c19Show(r) + " gp=" + c19GP(r)
+		o82 := c19Hex(f[2])
+		r, am := c19Rw(c19Hex(f[3]), func(p []byte) []byte { return InsertOption82(p, o82, f[1]) })
+		return c19Show(r) + " gp=" + c19GP(r) + " " + am
 	case "o82strip":
-		r := StripOption82(c19Hex(f[1]))
-		return c19Show(r) + " gp=" + c19GP(r)
+		r, am := c19Rw(c19Hex(f[1]), StripOption82)
+		return c19Show(r) + " gp=" + c19GP(r) + " " + am
 	case "setu32":
 		code := byte(c19U(f[1]))
-		r := SetOptionUint32(c19Hex(f[3]), code, uint32(c19U(f[2])))
-		return c19Show(r) + " gp=" + c19GP(r) + " get=" + c19Get4(r, code)
+		r, am := c19Rw(c19Hex(f[3]), func(p []byte) []byte { return SetOptionUint32(p, code, uint32(c19U(f[2]))) })
+		return c19Show(r) + " gp=" + c19GP(r) + " get=" + c19Get4(r, code) + " " + am
 	case "setip":
 		code := byte(c19U(f[1]))
-		r := SetOptionIP(c19Hex(f[3]), code, c19IP(f[2]))
-		return c19Show(r) + " gp=" + c19GP(r) + " get=" + c19Get4(r, code)
+		r, am := c19Rw(c19Hex(f[3]), func(p []byte) []byte { return SetOptionIP(p, code, c19IP(f[2])) })
+		return c19Show(r) + " gp=" + c19GP(r) + " get=" + c19Get4(r, code) + " " + am
 	case "proxy":
-		r := RewriteForProxy(c19Hex(f[3]), c19IP(f[1]), uint32(c19U(f[2])))
-		return fmt.Sprintf("%s gp=%s get=%s,%s,%s,%s", c19Show(r), c19GP(r), c19Get4(r, 54), c19Get4(r, 51), c19Get4(r, 58), c19Get4(r, 59))
+		r, am := c19Rw(c19Hex(f[3]), func(p []byte) []byte { return RewriteForProxy(p, c19IP(f[1]), uint32(c19U(f[2]))) })
+		return fmt.Sprintf("%s gp=%s get=%s,%s,%s,%s %s", c19Show(r), c19GP(r), c19Get4(r, 54), c19Get4(r, 51), c19Get4(r, 58), c19Get4(r, 59), am)
 	case "giaddr":
 		p := c19Hex(f[2])
 		SetGIAddr(p, c19IP(f[1]))
-		return c19Show(p) + " get=" + c19ShowN(GetGIAddr(p))
+		g := GetGIAddr(p)
+		return c19Show(p) + " get=" + c19ShowN(g) + fmt.Sprintf(" gal=%d", c19Al(g, p))
 	case "hops":
 		p := c19Hex(f[1])
 		IncrementHops(p)
@@ -279,28 +313,65 @@ func c19Case(f []string) (out string) {
 			r.Extras = append(r.Extras, dhcp6.ExtraOption{Code: codes[i], Data: datas[i]})
 		}
 		b := r.Serialize()
+		if c19Al(b, r.ClientID) == 1 || c19Al(b, r.ServerID) == 1 {
+			return "ALIAS"
+		}
 		m, _ := dhcp6.ParseMessage(b)
 		return c19Show(b) + " ; " + c19Msg(m)
 	case "rf6":
 		p := &RelayForwardParams{HopCount: uint8(c19U(f[1])), LinkAddress: c19IP(f[2]), PeerAddress: c19IP(f[3]),
 			InterfaceID: c19Hex(f[4]), RemoteID: c19Hex(f[5]), EnterpriseNumber: uint32(c19U(f[6])), SubscriberID: c19Hex(f[7])}
-		b := BuildRelayForward(c19Hex(f[8]), p)
+		msg := c19Hex(f[8])
+		b := BuildRelayForward(msg, p)
+		if c19Al(b, msg) == 1 || c19Al(b, p.InterfaceID) == 1 || c19Al(b, p.RemoteID) == 1 {
+			return "ALIAS"
+		}
 		m, i := dhcp6.UnwrapRelay(b)
 		return fmt.Sprintf("%s ; %s ; info=%s ; txid=%s", c19Show(b), c19Msg(m), c19Info(i), c19Txid(b))
 	case "rr6":
 		info := &dhcp6.RelayInfo{HopCount: uint8(c19U(f[1])), LinkAddr: c19IP(f[2]), PeerAddr: c19IP(f[3]), InterfaceID: c19Hex(f[4])}
-		b := BuildRelayReply(c19Hex(f[5]), info)
+		innerMsg := c19Hex(f[5])
+		b := BuildRelayReply(innerMsg, info)
+		if c19Al(b, innerMsg) == 1 || c19Al(b, info.InterfaceID) == 1 {
+			return "ALIAS"
+		}
 		return fmt.Sprintf("%s ; unwrap=%s ; txid=%s ; m6=%s", c19Show(b), c19Unwrap(b), c19Txid(b), c19Msg(dhcp6.UnwrapRelayReply(b)))
 	case "unw6":
 		b := c19Hex(f[1])
 		m, i := dhcp6.UnwrapRelay(b)
 		return fmt.Sprintf("unwrap=%s ; txid=%s ; %s ; info=%s ; m6=%s", c19Unwrap(b), c19Txid(b), c19Msg(m), c19Info(i), c19Msg(dhcp6.UnwrapRelayReply(b)))
+	case "pseq6":
+		// pseq6 proxyduid pref valid relayreply request — the DHCPv6 proxy's two-message sequence at function level
+		// (plugins/dhcp6/proxy/provider.go handleForwardAndRewrite): learn the server DUID from the ADVERTISE/REPLY,
+		// rewrite that message for the client, later put the learnt DUID into the client's REQUEST
+		pd := c19Hex(f[1])
+		raw := c19Hex(f[4])
+		raw0 := append([]byte(nil), raw...)
+		inner, err := UnwrapRelayReply(raw)
+		if err != nil {
+			return "err"
+		}
+		sd := GetServerDUID(inner)
+		inner = ReplaceServerDUID(inner, pd)
+		inner = RewriteV6Lifetimes(inner, uint32(c19U(f[2])), uint32(c19U(f[3])))
+		req := c19Hex(f[5])
+		if len(sd) > 0 {
+			req = ReplaceServerDUID(req, sd)
+		}
+		fwd := BuildRelayForward(req, &RelayForwardParams{LinkAddress: net.IPv6loopback, PeerAddress: net.IPv6loopback, InterfaceID: []byte("if0")})
+		return fmt.Sprintf("%s ; sd=%s ; fwd=%s ; rawmod=%d", c19Show(inner), c19ShowN(sd), c19Show(fwd), c19B(!bytes.Equal(raw, raw0)))
 	case "lt6":
-		r := RewriteV6Lifetimes(c19Hex(f[3]), uint32(c19U(f[1])), uint32(c19U(f[2])))
-		return c19Show(r)
+		r, am := c19Rw(c19Hex(f[3]), func(p []byte) []byte { return RewriteV6Lifetimes(p, uint32(c19U(f[1])), uint32(c19U(f[2]))) })
+		return c19Show(r) + " " + am
 	case "duid6":
-		r := ReplaceServerDUID(c19Hex(f[2]), c19Hex(f[1]))
-		return c19Show(r) + " get=" + c19ShowN(GetServerDUID(r))
+		nd := c19Hex(f[1])
+		r, am := c19Rw(c19Hex(f[2]), func(p []byte) []byte { return ReplaceServerDUID(p, nd) })
+		g := GetServerDUID(r)
+		gs := c19ShowN(g)
+		gal := c19Al(g, r)
+		// the result must not alias the new DUID either
+		ral := c19Al(r, nd)
+		return c19Show(r) + " get=" + gs + fmt.Sprintf(" %s gal=%d nal=%d", am, gal, ral)
 	}
 	return "badline"
 }
